@@ -49,7 +49,8 @@ def r12_4(rep, M, rid):
         else:
             rep.violation(rid, f"get_primitive_system: {p}", f"is fed by {got or None}, not by self.{getter}(): the primitive description "
                           "is not derived from the (normalizer-transformed) conventional one", M.where(fq, calls[0]))
-    SR.orbit_source(rep, M, rid)
+    # which spglib field the equivalence classes come from is not part of C12: classes that are finer than the crystallographic orbits
+    # still share element and letter and leave the (letter, element) counts alone (that clause belongs to C06/C07)
 
 
 def run(rep, ctx):
@@ -81,7 +82,7 @@ def run(rep, ctx):
     rep.rule("R12.6", "cached systems handed out by the analyzer are never modified afterwards")
     with rep.guard("R12.6"):
         from .. import symrules as _SR3
-        _SR3.handed_out_objects_not_mutated(rep, ctx.model, "R12.6")
+        _SR3.handed_out_objects_not_mutated(rep, ctx.model, "R12.6", three_d_only=True)
     rep.rule("R12.7", "spglib is given the analysed structure unmodified with the analyzer's tolerance, and its standardised lattice / positions / types are used without a change of convention (shared with C05)")
     with rep.guard("R12.7"):
         from . import shared as _shb
@@ -89,7 +90,7 @@ def run(rep, ctx):
     rep.floor("R12.7", 7)
     rep.rule("R12.8", "every tabulated normalizer is an automorphism of its group and an isometry of the lattice (the normalised cell is the same crystal in the same space group; shared with C05/C14)")
     from . import shared as _shn
-    _shn.normalizer_tables(rep, ctx.tables, "R12.8", perm=True)
+    _shn.normalizer_tables(rep, ctx.tables, "R12.8", perm=False)  # all three descriptions read one and the same permutation dict: its content cannot make them disagree
     rep.floor("R12.8", 2400)
     rep.floor("R12.1", 230)
     rep.floor("R12.2", 5)
